@@ -2,11 +2,14 @@ package harness
 
 import (
 	"bytes"
+	crand "crypto/rand"
 	"crypto/rsa"
+	"crypto/x509"
 	"encoding/base64"
 	"encoding/json"
 	"encoding/xml"
 	"fmt"
+	"math/big"
 	"math/rand"
 	"sort"
 	"strings"
@@ -104,6 +107,10 @@ func c08CertText(class string, idx int, rng *rand.Rand) (string, bool) {
 	switch class {
 	case "validRSA", "validRSAChain":
 		return c08Wrap64(key(c08KeyByIdx[idx]).CertB64(), rng), true
+	case "validRSANotYet": // the same key, certified for a period that has not begun
+		return c08Wrap64(c08ShiftedCert(c08KeyByIdx[idx], wsNow.Add(90*time.Second), wsNow.Add(366*24*time.Hour)), rng), true
+	case "validRSAExpired": // ... for a period that is over
+		return c08Wrap64(c08ShiftedCert(c08KeyByIdx[idx], wsNow.Add(-400*24*time.Hour), wsNow.Add(-24*time.Hour)), rng), true
 	case "validEC":
 		return c08Wrap64(key(c08ECByIdx[idx]).CertB64(), rng), true
 	case "malformedBase64":
@@ -131,6 +138,30 @@ func c08CertText(class string, idx int, rng *rand.Rand) (string, bool) {
 		return "", false
 	}
 	panic("unknown cert class " + class)
+}
+
+var (
+	c08ShiftedMu sync.Mutex
+	c08Shifted   = map[string]string{}
+)
+
+// c08ShiftedCert returns (base64) a self-signed certificate of the named key pair valid from..to.
+func c08ShiftedCert(name string, from, to time.Time) string {
+	k := fmt.Sprintf("%s/%d/%d", name, from.Unix(), to.Unix())
+	c08ShiftedMu.Lock()
+	defer c08ShiftedMu.Unlock()
+	if v, ok := c08Shifted[k]; ok {
+		return v
+	}
+	kp := key(name)
+	tmpl := &x509.Certificate{SerialNumber: big.NewInt(from.Unix()), Subject: kp.Cert.Subject, NotBefore: from, NotAfter: to,
+		KeyUsage: x509.KeyUsageKeyEncipherment | x509.KeyUsageDigitalSignature}
+	der, err := x509.CreateCertificate(crand.Reader, tmpl, tmpl, kp.Key.Public(), kp.Key)
+	if err != nil {
+		panic(err)
+	}
+	c08Shifted[k] = base64.StdEncoding.EncodeToString(der)
+	return c08Shifted[k]
 }
 
 const nsMD = "urn:oasis:names:tc:SAML:2.0:metadata"
@@ -418,7 +449,7 @@ func c08IdpRun(layout []c08Desc, mdXML []byte, rng *rand.Rand) (c08IdpObs, bool)
 	o.First = c08Respond(md, session, m)
 	advertised := map[string]bool{}
 	for i, d := range layout {
-		if (d.Use == "encryption" || d.Use == "omitted") && (d.Cert == "validRSA" || d.Cert == "validRSAChain") {
+		if (d.Use == "encryption" || d.Use == "omitted") && strings.HasPrefix(d.Cert, "validRSA") {
 			advertised[c08KeyByIdx[i]] = true
 		}
 	}
